@@ -74,6 +74,7 @@ type FCfg struct {
 	Seq     []string `json:"seq,omitempty"`     // sequential scenario (C05b / C03 sequences)
 	Collide bool     `json:"collide,omitempty"` // the keys are distinct 64-byte keys with the same xxhash64
 	UpdSec  int      `json:"updsec,omitempty"`  // custom UpdateTTL in seconds
+	ObsMut  bool     `json:"obsmut,omitempty"`  // ObserveMutability on (a stats tracker is attached)
 	Tags    []string `json:"tags,omitempty"`
 }
 
@@ -585,6 +586,10 @@ func newFH(cfg FCfg) *fh {
 		lg cache.Logger
 	)
 
+	if cfg.ObsMut {
+		st = fstats{h.ref}
+	}
+
 	for _, t := range cfg.Tags {
 		if t == "stats" {
 			st = fstats{h.ref}
@@ -657,14 +662,14 @@ func (h *fh) construct(cfg FCfg, bcfg cache.Config, st cache.StatsTracker, lg ca
 
 		f := cache.NewFailover(cache.FailoverConfig{
 			Name: "c", Backend: &bwrap{h: h, inner: inner}, SyncUpdate: cfg.SU, SyncRead: cfg.SR, FailHard: cfg.FH,
-			MaxStaleness: ms, FailedUpdateTTL: ft, UpdateTTL: upd, Stats: st, Logger: lg,
+			MaxStaleness: ms, FailedUpdateTTL: ft, UpdateTTL: upd, Stats: st, Logger: lg, ObserveMutability: cfg.ObsMut,
 		}.Use)
 		h.front = &frontF{f: f, inner: inner}
 	case 2:
 		inner := cache.NewShardedMapOf[Tok](bcfg.Use)
 		f := cache.NewFailoverOf[Tok](cache.FailoverConfigOf[Tok]{
 			Name: "c", Backend: &bwrapOf{h: h, inner: inner}, SyncUpdate: cfg.SU, SyncRead: cfg.SR, FailHard: cfg.FH,
-			MaxStaleness: ms, FailedUpdateTTL: ft, UpdateTTL: upd, Stats: st, Logger: lg,
+			MaxStaleness: ms, FailedUpdateTTL: ft, UpdateTTL: upd, Stats: st, Logger: lg, ObserveMutability: cfg.ObsMut,
 		}.Use)
 		h.front = &frontFO{f: f, inner: inner}
 	}
@@ -713,6 +718,10 @@ func (h *fh) builder(k int) func(ctx context.Context) (Tok, error) {
 		}
 
 		t := Tok{K: h.names[k], O: "b", N: n}
+		if out == 's' {
+			t = Tok{K: h.names[k], O: "pre"} // the rebuilt value equals the cached one
+		}
+
 		h.ev(FEv{Kind: "build-end", Key: k, N: n, Tok: t, Ctx: ctxObs{Err: ctx.Err()}})
 
 		return t, nil
